@@ -13,8 +13,12 @@ SHIPPED = ('propositional', 'small_theory', 'substitution')
 def gen_modules(rng, n, depth=3):
     mods = []
     for _ in range(n):
-        if rng.random() < 0.08:
+        r = rng.random()
+        if r < 0.08:
             mods.append(genpf.shadow_module(rng))
+            continue
+        if r < 0.28:
+            mods.append(genpf.pf_module(rng, subs=rng.choice((0, 0, 1))))      # the propositional fragment (C02.propositional_module_accepted)
             continue
         mods.append(genpf.gen_module(rng, rng.choice((1, 2, depth)), subs=rng.choice((0, 0, 1, 2))))
     return mods
